@@ -737,6 +737,9 @@ var regexSamples = []regexSample{
 	{`qqqqx{0}zzzz`, []string{"qqqqzzzz"}, "x{0} repeats zero times: the x is not there"},
 	{`qqqqx{0,}zzzz`, []string{"qqqqzzzz"}, "x{0,} may repeat zero times"},
 	{`qqqq\\dzzzz`, []string{`qqqq\dzzzz`}, "escaped backslash followed by a letter: literal text"},
+	{`qqqq(a)xxxx|zzzz(b)`, []string{"qqqqaxxxx", "zzzzb"}, "alternation between two groups: stripping from the first '(' to the last ')' must not hide it"},
+	{`qqqq[a]xxxx|zzzz[b]yyyy`, []string{"qqqqaxxxx", "zzzzbyyyy"}, "alternation between two character classes"},
+	{`qqqqx{1}|zzzzy{1}wwww`, []string{"qqqqx", "zzzzywwww"}, "alternation between two counted repetitions"},
 }
 
 // cutScanSplitter recognises the candidate pieces being cut by a scan instead
@@ -896,6 +899,7 @@ func checkRegexHeuristicTable(c *Ctx, g *Gate, s *Summary, regexX *ssa.Function)
 	type bail struct {
 		text *E
 		k    string
+		any  bool // strings.ContainsAny: one of the characters of k
 	}
 	var bails []bail
 	for _, r := range s.Rets {
@@ -905,17 +909,77 @@ func checkRegexHeuristicTable(c *Ctx, g *Gate, s *Summary, regexX *ssa.Function)
 		for _, at := range u.AtomsOf(r.Cond) {
 			if at.Op == "call" && (at.Aux == "strings.Contains" || at.Aux == "strings.ContainsAny") && len(at.Args) == 2 && u.bdd.Implies(r.Cond, u.Atom(at)) {
 				if k, ok := at.Args[1].StrVal(); ok {
-					bails = append(bails, bail{at.Args[0], k})
+					bails = append(bails, bail{at.Args[0], k, at.Aux == "strings.ContainsAny"})
 				}
 			}
 		}
+	}
+	hit := func(b bail, val string) bool {
+		if b.any {
+			return strings.ContainsAny(val, b.k)
+		}
+		return strings.Contains(val, b.k)
 	}
 	bailsAt := func(text *E, val string) bool {
 		for _, b := range bails {
 			if b.text != text {
 				continue
 			}
-			if strings.Contains(val, b.k) {
+			if hit(b, val) {
+				return true
+			}
+		}
+		return false
+	}
+	// a bail-out may test a text of its own: a chain of constant replacements applied to the
+	// expression as written (not one of the stages that lead to the split)
+	var evalText func(e *E, sample string, depth int) (string, bool)
+	evalText = func(e *E, sample string, depth int) (string, bool) {
+		switch {
+		case depth > 12:
+			return "", false
+		case e == body:
+			return sample, true
+		case e.Op == "bin" && e.Aux == "+":
+			if h, ok := e.Args[0].StrVal(); ok {
+				v, ok2 := evalText(e.Args[1], sample, depth+1)
+				return h + v, ok2
+			}
+		case isRepl(e):
+			pat, ok1 := constRe(e.Args[0])
+			repl, ok2 := e.Args[2].StrVal()
+			in, ok3 := evalText(e.Args[1], sample, depth+1)
+			if !ok1 || !ok2 || !ok3 {
+				return "", false
+			}
+			re, err := regexp.Compile(pat)
+			if err != nil {
+				return "", false
+			}
+			if strings.HasSuffix(e.Aux, "LiteralString") {
+				return re.ReplaceAllLiteralString(in, repl), true
+			}
+			return re.ReplaceAllString(in, repl), true
+		}
+		return "", false
+	}
+	inChain := func(text *E) bool {
+		if text == body || text == t {
+			return true
+		}
+		for _, st := range stages {
+			if st.text == text {
+				return true
+			}
+		}
+		return false
+	}
+	sideBail := func(sample string) bool {
+		for _, b := range bails {
+			if inChain(b.text) {
+				continue
+			}
+			if v, ok := evalText(b.text, sample, 0); ok && hit(b, v) {
 				return true
 			}
 		}
@@ -931,7 +995,7 @@ func checkRegexHeuristicTable(c *Ctx, g *Gate, s *Summary, regexX *ssa.Function)
 		val := sm.body
 		bad := ""
 		out := ""
-		if bailsAt(body, val) {
+		if bailsAt(body, val) || sideBail(val) {
 			out = "no shortcut (bail-out)"
 		} else {
 			val = head + val
